@@ -24,9 +24,18 @@ def explore(chk):
     b = core.Batch()
     ops = [b.add("scc.read", "0/1", core.enc(p["text"])) for p in progs]
     out = b.run() if chk.driver_ok else None
-    for p, o in zip(progs, ops):
-        I = sc.impl_read(p["text"])
-        case = {"scc": p["text"], "mode": p["mode"], "rows": [r["text"] for r in p["rows"]],
+    # a reader object that has been used before, once with simulate_roll_up=True: later default reads on it are judged
+    # like any other read (the option belongs to one call)
+    import pycaption
+    used = pycaption.SCCReader()
+    try:
+        used.read(progs[0]["text"], simulate_roll_up=True)
+    except Exception:
+        pass
+    for pi_, (p, o) in enumerate(zip(progs, ops)):
+        I = sc.impl_read(p["text"], reader=used if pi_ % 5 == 0 else None)
+        case = {"scc": p["text"], "mode": p["mode"], "reader": "used before (once with simulate_roll_up=True)" if pi_ % 5 == 0 else "fresh",
+                "rows": [r["text"] for r in p["rows"]],
                 "impl": str(I[:2]) if I[0] == "err" else str([(float(c[0]), float(c[1]), ["".join(ch for ch, _ in l) for l in c[2]]) for c in I[1]])}
         chk.case(key=p["text"], nontrivial=len(p["rows"]) > 1, sample=case if chk.count_get("n") in (1, 30) else None)
         chk.count("n"); chk.count("mode_" + p["mode"])
